@@ -42,6 +42,10 @@ CreateT(p)   == IF Exists(p) THEN tree ELSE [tree EXCEPT ![p] = File(<<>>)]
 CanWrite(p)  == p \in Files /\ IsFile(p)
 WriteT(p, off, len, tag) == [tree EXCEPT ![p] = File(Overlay(tree[p].data, off, Tags(len, tag)))]
 AppendT(p, len, tag)     == WriteT(p, Len(tree[p].data), len, tag)
+\* Truncate(p, n) (ext4.FileSystem.Truncate; beyond the calls C04 lists, but an "operation on the volume"
+\* for C05): a plain tree cuts the content to n units or extends it with zeros
+TruncateT(p, n) == [tree EXCEPT ![p] = File(IF n <= Len(tree[p].data) THEN SubSeq(tree[p].data, 1, n)
+                                             ELSE tree[p].data \o Zeros(n - Len(tree[p].data)))]
 CanSymlink(p) == p \in Links /\ ~Exists(p) /\ IsDir(Parent[p])
 SymlinkT(p, t) == [tree EXCEPT ![p] = Link(t)]
 CanRemove(p) == p \in Paths /\ Exists(p) /\ (tree[p].kind = "dir" => \A q \in Children(p) : ~Exists(q))
